@@ -529,6 +529,214 @@ std::string run_c41(Scenario& sc, const std::vector<std::string>& rtoks)
                     " | " + txs + tail;
     return s;
 }
+
+// ---------------------------------------------------------------------------------------------------------------------------
+// C56: fee bumping
+
+// everything a refused (or merely created, not committed) bump must leave alone
+std::string wallet_digest(Scenario& sc)
+{
+    LOCK(sc.wallet->cs_wallet);
+    std::vector<std::string> items;
+    for (const auto& [id, wtx] : sc.wallet->mapWallet) {
+        std::string st;
+        if (auto* c = wtx.state<TxStateConfirmed>()) st = "C" + std::to_string(c->confirmed_block_height);
+        else if (wtx.state<TxStateInMempool>()) st = "M";
+        else if (auto* x = wtx.state<TxStateBlockConflicted>()) st = "X" + std::to_string(x->conflicting_block_height);
+        else if (auto* i = wtx.state<TxStateInactive>()) st = i->abandoned ? "A" : "I";
+        else st = "U";
+        std::string mv;
+        for (const auto& [k, v] : wtx.mapValue) mv += k + "=" + v + ";";
+        items.push_back(id.ToString() + ":" + st + ":" + (wtx.m_replaces_txid ? wtx.m_replaces_txid->ToString() : "-") + ":" +
+                        (wtx.m_replaced_by_txid ? wtx.m_replaced_by_txid->ToString() : "-") + ":" + mv);
+    }
+    for (const auto& [op, txo] : sc.wallet->GetTXOs()) {
+        items.push_back(op.ToString() + ":" + (sc.wallet->IsSpent(op) ? "s" : "u") + (sc.wallet->IsLockedCoin(op) ? "k" : "-"));
+    }
+    std::sort(items.begin(), items.end());
+    HashWriter h;
+    for (const auto& i : items) h << i;
+    return h.GetSHA256().ToString().substr(0, 16);
+}
+
+std::string outs_str(Scenario& sc, const std::vector<CTxOut>& outs)
+{
+    LOCK(sc.wallet->cs_wallet);
+    std::string s;
+    for (const CTxOut& o : outs) {
+        s += " " + std::to_string(o.nValue) + ":" + vd::hex(o.scriptPubKey) + ":" + (sc.wallet->IsMine(o.scriptPubKey) ? "1" : "0") + ":" +
+             (OutputIsChange(*sc.wallet, o) ? "1" : "0");
+    }
+    return s;
+}
+
+struct Orig {
+    CTransactionRef tx;
+    CAmount fee{0};
+    std::string error;
+};
+
+// create (as in C41) and commit the transaction that is going to be bumped
+Orig make_original(Scenario& sc, const std::vector<std::string>& rtoks)
+{
+    Orig o;
+    Request rq;
+    parse_request(sc, rtoks, rq);
+    if (!rq.error.empty()) { o.error = rq.error; return o; }
+    auto res = CreateTransaction(*sc.wallet, rq.rcp, rq.change_pos, rq.cc, /*sign=*/true);
+    if (!res) { o.error = slug(util::ErrorString(res).original); return o; }
+    sc.wallet->CommitTransaction(res->tx, {}, {});
+    sc.sync();
+    if (!sc.m_node.mempool->exists(res->tx->GetHash())) { o.error = "orig-not-in-mempool"; return o; }
+    sc.txlabel[res->tx->GetHash()] = "O";
+    o.tx = res->tx;
+    o.fee = res->fee;
+    return o;
+}
+
+std::string run_c56(Scenario& sc, const Orig& orig, const std::vector<std::string>& btoks, bool& dirty)
+{
+    const CTransaction& otx = *orig.tx;
+    const Txid oid = otx.GetHash();
+    CCoinControl cc;
+    bool require_mine = true;
+    std::optional<uint32_t> oci;
+    std::vector<CTxOut> new_outs;
+    std::string state;
+    bool commit = false;
+    for (const std::string& tok : btoks) {
+        const auto eq = tok.find('=');
+        if (eq == std::string::npos) return "BADCASE bumptok";
+        const std::string k = tok.substr(0, eq), v = tok.substr(eq + 1);
+        if (k == "fr") cc.m_feerate = CFeeRate(std::stoll(v));
+        else if (k == "rm") require_mine = v != "0";
+        else if (k == "oci") oci = (uint32_t)std::stoul(v);
+        else if (k == "state") state = v;
+        else if (k == "commit") commit = v != "0";
+        else if (k == "out") {
+            for (const std::string& spec : split(v, ',')) {
+                if (spec.size() < 2) return "BADCASE outspec";
+                if (spec[0] == 'k') {
+                    const auto col = spec.find(':');
+                    const size_t i = std::stoul(spec.substr(1, col == std::string::npos ? std::string::npos : col - 1));
+                    if (i >= otx.vout.size()) continue;   // refers to an output the original does not have: dropped
+                    CTxOut o = otx.vout[i];
+                    if (col != std::string::npos) o.nValue = std::stoll(spec.substr(col + 1));
+                    new_outs.push_back(o);
+                } else if (spec[0] == 'n' && spec.size() >= 3) {
+                    new_outs.emplace_back((CAmount)std::stoll(spec.substr(2)), sc.ext_script(spec[1]));
+                } else return "BADCASE outspec";
+            }
+        } else return "BADCASE bumpkey";
+    }
+    // make the original unbumpable if the case says so
+    if (!state.empty()) {
+        dirty = true;
+        if (state == "conf") {
+            sc.CreateAndProcessBlock({CMutableTransaction(otx)}, sc.other_spk);
+            sc.sync();
+        } else if (state == "desc") {
+            // somebody spends one of its outputs paid to the external key
+            bool done = false;
+            for (uint32_t n = 0; n < otx.vout.size() && !done; ++n) {
+                if (otx.vout[n].scriptPubKey != sc.ext_script('b') || otx.vout[n].nValue < 2000) continue;
+                auto mtx = sc.CreateValidTransaction({orig.tx}, {COutPoint(oid, n)}, 0, {sc.extkey}, {CTxOut(otx.vout[n].nValue - 1000, sc.other_spk)}, std::nullopt, std::nullopt).first;
+                const MempoolAcceptResult r = WITH_LOCK(cs_main, return sc.m_node.chainman->ProcessTransaction(MakeTransactionRef(mtx)));
+                done = r.m_result_type == MempoolAcceptResult::ResultType::VALID;
+                sc.sync();
+            }
+            if (!done) return "NA no-external-output-to-spend";
+        } else if (state == "wdesc") {
+            // the wallet itself spends one of its outputs (its change, or a payment to itself)
+            std::optional<COutPoint> mine;
+            {
+                LOCK(sc.wallet->cs_wallet);
+                for (uint32_t n = 0; n < otx.vout.size(); ++n) if (sc.wallet->IsMine(otx.vout[n]) && otx.vout[n].nValue > 5000) { mine = COutPoint(oid, n); break; }
+            }
+            if (!mine) return "NA no-own-output-to-spend";
+            CCoinControl c2;
+            c2.Select(*mine);
+            c2.m_allow_other_inputs = false;
+            c2.m_feerate = CFeeRate(20000);
+            CTxDestination d;
+            ExtractDestination(sc.ext_script('b'), d);
+            auto r2 = CreateTransaction(*sc.wallet, {CRecipient{d, 2000, true}}, std::nullopt, c2, true);
+            if (!r2) return "NA wdesc:" + slug(util::ErrorString(r2).original);
+            sc.wallet->CommitTransaction(r2->tx, {}, {});
+            sc.sync();
+        } else if (state == "bumped") {
+            std::vector<bilingual_str> errs;
+            CAmount of = 0, nf = 0;
+            CMutableTransaction m;
+            CCoinControl c2;
+            if (feebumper::CreateRateBumpTransaction(*sc.wallet, oid, c2, errs, of, nf, m, true, {}) != feebumper::Result::OK) return "NA first-bump-failed";
+            if (!feebumper::SignTransaction(*sc.wallet, m)) return "NA first-bump-sign";
+            Txid nid;
+            if (feebumper::CommitTransaction(*sc.wallet, oid, std::move(m), errs, nid) != feebumper::Result::OK) return "NA first-bump-commit";
+            sc.sync();
+        } else return "BADCASE state";
+    }
+    // the facts PreconditionChecks consults, observed through the wallet's / node's primitive accessors
+    std::string facts;
+    {
+        LOCK(sc.wallet->cs_wallet);
+        const CWalletTx& wtx = sc.wallet->mapWallet.at(oid);
+        facts = " hasws=" + std::string(sc.wallet->HasWalletSpend(orig.tx) ? "1" : "0") +
+                " mpdesc=" + (sc.m_node.chain->hasDescendantsInMempool(oid) ? "1" : "0") +
+                " depth=" + std::to_string(sc.wallet->GetTxDepthInMainChain(wtx)) +
+                " replaced=" + (wtx.m_replaced_by_txid ? "1" : "0") +
+                " allmine=" + (AllInputsMine(*sc.wallet, otx) ? "1" : "0") +
+                " rm=" + (require_mine ? "1" : "0") +
+                " inpool=" + (sc.m_node.mempool->exists(oid) ? "1" : "0");
+    }
+    CAmount oin = 0;
+    const std::string otxs = print_tx(sc, otx, nullptr, oin);
+    const std::string before = wallet_digest(sc);
+    std::vector<bilingual_str> errors;
+    CAmount old_fee = 0, new_fee = 0;
+    CMutableTransaction mtx;
+    const feebumper::Result r = feebumper::CreateRateBumpTransaction(*sc.wallet, oid, cc, errors, old_fee, new_fee, mtx, require_mine, new_outs, oci);
+    const std::string after = wallet_digest(sc);
+    std::string tail = facts + " wsame=" + (before == after ? "1" : "0") + " ovsize=" + std::to_string(GetVirtualTransactionSize(otx)) +
+                       " ofee=" + std::to_string(orig.fee) + " | O" + otxs + " | NEWOUTS" + outs_str(sc, new_outs) +
+                       " | OCI " + (oci ? std::to_string(*oci) : std::string("-")) + " | " + sc.print_coins() + " | " + sc.print_env();
+    if (r != feebumper::Result::OK) {
+        static const char* names[] = {"OK", "INVALID_ADDRESS_OR_KEY", "INVALID_REQUEST", "INVALID_PARAMETER", "WALLET_ERROR", "MISC_ERROR"};
+        return std::string("ERR ") + names[(int)r] + " " + (errors.empty() ? std::string("-") : slug(errors[0].original)) + tail;
+    }
+    // the replacement, signed, against the node's mempool (test accept: nothing is changed)
+    CMutableTransaction signed_mtx = mtx;
+    const bool sig_ok = feebumper::SignTransaction(*sc.wallet, signed_mtx);
+    const CTransactionRef ntx = MakeTransactionRef(signed_mtx);
+    std::string tma = "nosig";
+    bool replaces = false;
+    if (sig_ok) {
+        const MempoolAcceptResult a = WITH_LOCK(cs_main, return sc.m_node.chainman->ProcessTransaction(ntx, /*test_accept=*/true));
+        tma = a.m_result_type == MempoolAcceptResult::ResultType::VALID ? "ok" : ("rej:" + slug(a.m_state.GetRejectReason()));
+        for (const auto& t : a.m_replaced_transactions) if (t->GetHash() == oid) replaces = true;
+    }
+    CCoinControl cc_sz;
+    for (const CTxIn& in : ntx->vin) cc_sz.Select(in.prevout);
+    CAmount nin = 0;
+    const std::string ntxs = print_tx(sc, *ntx, &cc_sz, nin);
+    const TxSize mx = WITH_LOCK(sc.wallet->cs_wallet, return CalculateMaximumSignedTxSize(*ntx, sc.wallet.get(), &cc_sz));
+    std::string committed = "-";
+    if (commit && sig_ok) {
+        dirty = true;
+        std::vector<bilingual_str> errs2;
+        Txid nid;
+        const auto cr = feebumper::CommitTransaction(*sc.wallet, oid, std::move(signed_mtx), errs2, nid);
+        sc.sync();
+        LOCK(sc.wallet->cs_wallet);
+        const CWalletTx& wtx = sc.wallet->mapWallet.at(oid);
+        committed = std::string(cr == feebumper::Result::OK ? "ok" : "fail") + "," + (sc.m_node.mempool->exists(nid) ? "1" : "0") + "," +
+                    (sc.m_node.mempool->exists(oid) ? "1" : "0") + "," + (wtx.m_replaced_by_txid && *wtx.m_replaced_by_txid == nid ? "1" : "0") + "," +
+                    (errs2.empty() ? "-" : slug(errs2[0].original));
+    }
+    return "OK oldfee=" + std::to_string(old_fee) + " newfee=" + std::to_string(new_fee) + " vsize=" + std::to_string(GetVirtualTransactionSize(*ntx)) +
+           " mvs=" + std::to_string(mx.vsize) + " tma=" + tma + " replaces=" + (replaces ? "1" : "0") + " committed=" + committed +
+           " newin=" + std::to_string(nin) + " | " + ntxs + tail;
+}
 } // namespace
 
 int main(int argc, char** argv)
@@ -536,6 +744,9 @@ int main(int argc, char** argv)
     const std::string mode = argc > 1 ? argv[1] : "C41";
     std::unique_ptr<Scenario> cached;
     std::string cached_key;
+    Orig borig;
+    std::string bkey;
+    std::unique_ptr<Scenario> bsc;
     return vd::main_loop([&](const std::vector<std::string>& w, const std::string&) -> std::string {
         if (w.size() < 3 || w[1] != "S") return "BADCASE";
         size_t r = 2;
@@ -552,6 +763,23 @@ int main(int argc, char** argv)
             if (!cached || cached_key != key) { cached.reset(); cached = std::make_unique<Scenario>(setup); cached_key = key; }
             if (!cached->setup_error.empty()) return "BADSETUP " + cached->setup_error;
             return run_c41(*cached, req);
+        }
+        if (w[0] == "bump") {
+            std::vector<std::string> bt(b < w.size() ? w.begin() + b + 1 : w.end(), w.end());
+            std::string okey = key + "R ";
+            for (const auto& t : req) okey += t + " ";
+            if (!bsc || bkey != okey) {
+                bsc.reset();
+                bsc = std::make_unique<Scenario>(setup);
+                bkey = okey;
+                if (bsc->setup_error.empty()) borig = make_original(*bsc, req);
+            }
+            if (!bsc->setup_error.empty()) return "BADSETUP " + bsc->setup_error;
+            if (!borig.error.empty()) return "NA orig:" + borig.error;
+            bool dirty = false;
+            std::string out = run_c56(*bsc, borig, bt, dirty);
+            if (dirty) { bkey.clear(); }
+            return out;
         }
         return "BADCASE";
     });
